@@ -1753,6 +1753,7 @@ class SessionCache(object):
         cache.noflush_counter = 0
         cache.modified_collections = defaultdict(set)
         cache.objects_to_save = []
+        cache.deleted_before_update = []  # objects which were deleted while their UPDATE was still pending
         cache.saved_objects = []
         cache.query_results = {}
         cache.dbvals_deduplication_cache = defaultdict(dict)
@@ -1876,7 +1877,7 @@ class SessionCache(object):
                             if not setdata.is_fully_loaded: obj._vals_[attr] = None
 
             cache.objects = cache.objects_to_save = cache.saved_objects = cache.query_results \
-                = cache.indexes = cache.seeds = cache.for_update = cache.max_id_cache \
+                = cache.indexes = cache.seeds = cache.for_update = cache.max_id_cache = cache.deleted_before_update \
                 = cache.modified_collections = cache.collection_statistics = cache.dbvals_deduplication_cache = None
     @contextmanager
     def flush_disabled(cache):
@@ -1911,6 +1912,7 @@ class SessionCache(object):
                 cache.max_id_cache.clear()
                 cache.modified_collections.clear()
                 cache.objects_to_save[:] = ()
+                cache.deleted_before_update[:] = ()
                 cache.modified = False
 
                 cache.call_after_save_hooks()
@@ -5116,6 +5118,7 @@ class Entity(object, metaclass=EntityMeta):
                     if status == 'modified':
                         assert save_pos is not None
                         objects_to_save[save_pos] = None
+                        cache.deleted_before_update.append(obj)
                     else:
                         assert status in ('loaded', 'inserted', 'updated')
                         assert save_pos is None
@@ -5262,6 +5265,21 @@ class Entity(object, metaclass=EntityMeta):
             val = obj._vals_[attr]
             if val is not None and val._status_ == 'created':
                 val._save_(dependent_objects)
+    def _delete_referring_rows_first_(obj, dependent_objects):
+        # An object that was modified and then deleted is moved to the end of the save queue and its UPDATE
+        # is never sent, so its row can still refer to this object while its DELETE is queued after this one
+        candidates = obj._session_cache_.deleted_before_update
+        if not candidates: return
+        if dependent_objects is None: dependent_objects = []
+        dependent_objects.append(obj)
+        for obj2 in candidates:
+            if obj2._status_ != 'marked_to_delete' or obj2 in dependent_objects: continue
+            dbvals = obj2._dbvals_
+            if not dbvals: continue
+            for attr in obj2._attrs_with_columns_:
+                if attr.reverse and dbvals.get(attr) is obj:
+                    obj2._save_(dependent_objects)
+                    break
     def _update_dbvals_(obj, after_create, new_dbvals):
         bits = obj._bits_
         vals = obj._vals_
@@ -5485,7 +5503,9 @@ class Entity(object, metaclass=EntityMeta):
 
         if status == 'created': obj._save_created_()
         elif status == 'modified': obj._save_updated_()
-        elif status == 'marked_to_delete': obj._save_deleted_()
+        elif status == 'marked_to_delete':
+            obj._delete_referring_rows_first_(dependent_objects)
+            obj._save_deleted_()
         else: assert False, "_save_() called for object %r with incorrect status %s" % (obj, status)  # pragma: no cover
 
         assert obj._status_ in saved_statuses
